@@ -11,20 +11,30 @@ from . import spec
 from .spec import BoolArr, IntArr, f_cnt, f_dot, f_prod
 
 
-def _prove(name, hyps, goal, extra_axioms=(), timeout_ms=20000):
-    s = z3.Solver()
-    s.set("timeout", timeout_ms)
-    for a in spec.axioms():
-        s.add(a)
-    for a in extra_axioms:
-        s.add(a)
-    for h in hyps:
-        s.add(h)
-    s.add(z3.Not(goal))
-    t0 = time.time()
-    r = s.check()
-    dt = time.time() - t0
+def _prove(name, hyps, goal, extra_axioms=(), timeout_ms=20000, with_axioms=True):
+    """One induction step / arithmetic fact.  Nonlinear integer goals are seed-sensitive in z3 (the same query takes 1 s,
+    5 s or times out): several seeds are tried, then cvc5; a pure arithmetic fact is posed without the spec axioms."""
+    dt = 0.0
+    r, s = z3.unknown, None
     backend = "z3"
+    for seed in (0, 3, 2, 1):
+        s = z3.Solver()
+        s.set("timeout", timeout_ms)
+        s.set("random_seed", seed)
+        if with_axioms:
+            for a in spec.axioms():
+                s.add(a)
+        for a in extra_axioms:
+            s.add(a)
+        for h in hyps:
+            s.add(h)
+        s.add(z3.Not(goal))
+        t0 = time.time()
+        r = s.check()
+        dt += time.time() - t0
+        if r == z3.unsat:
+            backend = "z3" if seed == 0 else f"z3(seed={seed})"
+            break
     if r != z3.unsat:
         from .solve import cvc5_check
         ans = cvc5_check(s.to_smt2().replace("(check-sat)", ""), timeout_ms // 1000)
@@ -82,9 +92,9 @@ def run_all() -> list[dict]:
     # M1 (mixed-radix step): l>=0, d>0, t>0  =>  ((l div t) mod d)*t + l mod t = l mod (d*t)
     l, d, t = z3.Ints("lm_l lm_d lm_t")
     out.append(_prove("M1.mixed-radix-step", [l >= 0, d > 0, t > 0],
-                      ((l / t) % d) * t + l % t == l % (d * t)))
+                      ((l / t) % d) * t + l % t == l % (d * t), with_axioms=False))
     # M2 (div-div): (x div b) div a = x div (a*b)
-    out.append(_prove("M2.div-div", [l >= 0, d > 0, t > 0], (l / t) / d == l / (d * t)))
+    out.append(_prove("M2.div-div", [l >= 0, d > 0, t > 0], (l / t) / d == l / (d * t), with_axioms=False))
     # L4 (ravel o unravel = id, any rank): sh positive, st[i] = prod(sh,i+1,n), key[i] = (l div st[i]) mod sh[i],
     #   0 <= l < prod(sh,0,n)  ==>  dot(key, st, n) = l.     Induction on the prefix length a with
     #   Q(a): dot(key,st,a) = l - l mod prod(sh,a,n);  the step uses M1 (proved above) at d=sh[a], t=prod(sh,a+1,n).
@@ -111,7 +121,7 @@ def run_all() -> list[dict]:
     out.append(_prove("L4.step.facts", setup + [0 <= aa, aa < n], facts))
     core_h = [D1 == D0 + K * ST, ST == TA1, K == (l / TA1) % d, TA == d * TA1, D0 == l - l % TA, l >= 0, d > 0, TA1 > 0,
               ((l / TA1) % d) * TA1 + l % TA1 == l % (d * TA1)]
-    out.append(_prove("L4.step.core", core_h, D1 == l - l % TA1))
+    out.append(_prove("L4.step.core", core_h, D1 == l - l % TA1, with_axioms=False))
     out.append(_prove("L4.final", setup + [Q(n)], f_dot(key, stv, n) == l))
     # L4b (in range): 0 <= key[i] < sh[i]
     out.append(_prove("L4b.in-range", setup + [0 <= aa, aa < n, p2_inst],
